@@ -9,8 +9,10 @@ Model of the pair → AST builders of nitrogql-parser (`crates/parser/src/parser
   drift from the source patterns.
 * Positions: `to_pos` = `Pair::line_col` made 0-based (`Peg.lineCol`), text = `Pair::as_str` (`Peg.slice`);
   both are served from tables built once per input (`Ctx.ofInput`).
-* Strings: `build_string_value` — escapes decoded, block strings returned RAW (only the `"""` delimiters are
-  cut off; this is finding t of DESIGN §9).
+* Strings: `build_string_value` — escapes decoded, a surrogate pair `\uHHHH\uLLLL` combined into one supplementary
+  character (fix fff8e9c; `decodeChars`), block strings returned RAW (only the `"""` delimiters are cut off; this is
+  finding t of DESIGN §9). `validate_unicode_escapes` per `NormalStringValue` with a pending leading surrogate
+  (`scanEscapes`, `firstBadEscape`); the pre-repair definitions are kept as `stringValueCharsOld`, `firstBadEscapeOld`.
 The result vocabulary is the shared one (`Gql/Ast.lean`); only what `harness/src/gm.rs from_real_*` reads
 from the Rust AST is represented (e.g. the positions of `Arguments`/`VariablesDefinition` nodes are not).
 -/
